@@ -72,6 +72,13 @@ func (p *Parser) rune() rune {
 	bquotes := 0
 retry:
 	if p.bsp >= uint(len(p.bs)) && p.fill() == 0 {
+		if p.r != runeEOF && p.err == nil && len(p.bs) > 0 {
+			// The reader gave us the last bytes along with [io.EOF],
+			// so fill returned early without sliding the consumed bytes out.
+			// Do that now, so that positions do not depend on how EOF arrived.
+			p.offs += int64(len(p.bs))
+			p.bs = nil
+		}
 		if len(p.bs) == 0 {
 			// Necessary for the last position to be correct.
 			// TODO: this is not exactly intuitive; figure out a better way.
